@@ -21,6 +21,21 @@ def run(ctx):
     ctx.step(_p15n, ctx)
 
 
+def freer_fn(ctx):
+    """the type-erased release function of a retired object, found by role: the fn item ToFree::new stores in the
+    `freer` field (the reference tree names it ToFree::new::do_free; a tree may hoist or rename it)"""
+    m = ctx.F.find_fns(r'^memory::ToFree::new::do_free$')
+    if len(m) == 1:
+        return m[0]
+    g = ctx.graph(ctx.fn1(r'^memory::ToFree::new$'))
+    r = g.strip(g.ev_local(g.root_inst, 0))
+    if r[0] == 'agg' and 'freer' in r[3]:
+        fr_ = g.strip(r[4][r[3].index('freer')])
+        if fr_[0] == 'fnc' and fr_[1] in ctx.F.fns:
+            return fr_[1]
+    raise CheckError("anchor: the function ToFree::new stores in ToFree.freer was not found")
+
+
 def _p13e(ctx):
     fn = ctx.fn1(r'^alloc::allocate$')
     g = ctx.graph(fn)
@@ -45,7 +60,7 @@ def _p13e(ctx):
     ctx.add('P13e', 'T-FLOW', fn, ok, 'deallocate(p, n) rebuilds Vec(p, len 0, capacity n): memory returned, no element dropped' if ok else
             'alloc::deallocate does not rebuild the Vec with length 0 and capacity n (a non-zero length drops elements that were already moved out / never written; a wrong capacity frees with the wrong layout)', sub='deallocate')
     # do_free: drop each element once, then deallocate the same count
-    fn = ctx.fn1(r'^memory::ToFree::new::do_free$')
+    fn = freer_fn(ctx)
     g = ctx.graph(fn)
     x = g.x
     de = x.inlined(r'^alloc::deallocate$')
@@ -61,13 +76,13 @@ def _p13e(ctx):
     ok = False
     if r[0] == 'agg' and set(r[3]) >= {'mem', 'num_param', 'freer'}:
         fr_ = g.strip(r[4][r[3].index('freer')])
-        ok = _is(g, r[4][r[3].index('mem')], 'param', 1) and _is(g, r[4][r[3].index('num_param')], 'param', 2) and fr_[0] == 'fnc' and fr_[1].endswith('do_free')
+        ok = _is(g, r[4][r[3].index('mem')], 'param', 1) and _is(g, r[4][r[3].index('num_param')], 'param', 2) and fr_[0] == 'fnc' and fr_[1] == freer_fn(ctx)
         # the monomorphic freer is instantiated with the pointee type of `val`
         for b in ctx.F.fns[fn]['blocks']:
             for s_ in b['stmts']:
                 if s_['k'] == 'assign':
                     for o in [s_['rv'].get('op')] + s_['rv'].get('ops', []):
-                        if isinstance(o, dict) and (o.get('fn') or '').endswith('do_free'):
+                        if isinstance(o, dict) and o.get('fn') and o.get('fn') == freer_fn(ctx):
                             ok = ok and o.get('generics') == ['T']
     ctx.add('P13e', 'T-FLOW', fn, ok, 'ToFree::new records (pointer, count, do_free::<T>) of the retired object' if ok else
             'ToFree::new does not record the retired pointer, its count and the freer for its own type', sub='tofree-new')
@@ -391,6 +406,13 @@ def _p3u(ctx):
                 continue
             if not re.search(USER_CODE_RE, t.get('fn') or '') or t.get('rk') not in ('none', 'virtual', None):
                 continue
+            # user code: a closure / payload type handed in through a public function (private helpers that take a closure
+            # are given closures of this crate by their callers)
+            owner_fn = f
+            if f['kind'] == 'Closure' and f.get('parent') in F.fns:
+                owner_fn = F.fns[f['parent']]
+            if 'Public' not in str(owner_fn.get('vis')) and not re.search(r'clone::Clone::clone$', t.get('fn') or ''):
+                continue
             n += 1
             bad = []
             work, seen = [int(t['unwind'])], set()
@@ -404,6 +426,9 @@ def _p3u(ctx):
                     for gl in ct.get('glue') or []:
                         d = F.fns.get(gl['fn'])
                         if d is None:
+                            continue
+                        # (what sits behind an Arc / Rc is shared: its destructor is the last owner's business)
+                        if any(isinstance(q_, dict) and (q_.get('via') or '').rsplit('::', 1)[-1] in ('Arc', 'Rc') for q_ in gl.get('proj') or []):
                             continue
                         callees = [(x_['term'].get('resolved') or '') for x_ in d['blocks'] if x_['term']['k'] == 'call'] + \
                                   [(x_['term'].get('fn') or '') for x_ in d['blocks'] if x_['term']['k'] == 'call']
